@@ -29,6 +29,8 @@ pub enum Inj {
     Captured { len: u16, mutation: Mut },
     /// two injections in one datagram
     Multi(Box<Inj>, Box<Inj>),
+    /// any other injection (typically one the genuine peer could have sent), then mutated
+    Mutated(Box<Inj>, Mut),
     /// raw garbage datagram from a sub-seed
     Garbage { n: u16, first: u8 },
     /// the target itself sends / closes / gets a retransmit tick
@@ -37,7 +39,7 @@ pub enum Inj {
 }
 
 #[derive(Clone, Debug, PartialEq)]
-pub enum Mut { None, Flip(u32), Trunc(u16), Extend(u8), Field(u8, u8) }
+pub enum Mut { None, Flip(u32), FlipTail(u32), Trunc(u16), Extend(u8), Field(u8, u8) }
 
 impl Inj {
     pub fn text(&self) -> String {
@@ -46,9 +48,10 @@ impl Inj {
             Inj::Sealed { ct, epoch, var, seq } => format!("gk:{ct}:{epoch}:{var}:{seq}"),
             Inj::WrongKey { ct, epoch, var, which } => format!("wk:{ct}:{epoch}:{var}:{which}"),
             Inj::Captured { len, mutation } => format!("cap:{len}:{}", match mutation {
-                Mut::None => "n".to_string(), Mut::Flip(b) => format!("f{b}"), Mut::Trunc(n) => format!("t{n}"),
+                Mut::None => "n".to_string(), Mut::Flip(b) => format!("f{b}"), Mut::FlipTail(b) => format!("r{b}"), Mut::Trunc(n) => format!("t{n}"),
                 Mut::Extend(n) => format!("e{n}"), Mut::Field(i, v) => format!("h{i}.{v}") }),
             Inj::Multi(a, b) => format!("mu[{}|{}]", a.text(), b.text()),
+            Inj::Mutated(a, m) => format!("mt[{}|{}]", a.text(), Inj::Captured { len: 0, mutation: m.clone() }.text()),
             Inj::Garbage { n, first } => format!("gb:{n}:{first}"),
             Inj::Send { len } => format!("sd:{len}"),
             Inj::Close => "cl".into(),
@@ -65,6 +68,11 @@ impl Inj {
             }
             panic!("bad multi {s}");
         }
+        if let Some(inner) = s.strip_prefix("mt[").and_then(|x| x.strip_suffix(']')) {
+            let i = inner.rfind('|').unwrap();
+            let m = match Inj::parse(&inner[i + 1..]) { Inj::Captured { mutation, .. } => mutation, _ => panic!("bad mutation") };
+            return Inj::Mutated(Box::new(Inj::parse(&inner[..i])), m);
+        }
         let f: Vec<&str> = s.split(':').collect();
         let n = |i: usize| f[i].parse::<u64>().unwrap();
         match f[0] {
@@ -73,7 +81,7 @@ impl Inj {
             "wk" => Inj::WrongKey { ct: n(1) as u8, epoch: n(2) as u16, var: n(3) as u8, which: n(4) as u8 },
             "cap" => Inj::Captured { len: n(1) as u16, mutation: {
                 let m = f[2]; let v = &m[1..];
-                match &m[..1] { "n" => Mut::None, "f" => Mut::Flip(v.parse().unwrap()), "t" => Mut::Trunc(v.parse().unwrap()),
+                match &m[..1] { "n" => Mut::None, "f" => Mut::Flip(v.parse().unwrap()), "r" => Mut::FlipTail(v.parse().unwrap()), "t" => Mut::Trunc(v.parse().unwrap()),
                     "e" => Mut::Extend(v.parse().unwrap()),
                     _ => { let p: Vec<&str> = v.split('.').collect(); Mut::Field(p[0].parse().unwrap(), p[1].parse().unwrap()) } } } },
             "gb" => Inj::Garbage { n: n(1) as u16, first: n(2) as u8 },
@@ -148,6 +156,19 @@ fn obs_text(o: &Obs) -> String {
         j(o.sent.iter().flat_map(|d| descr(d)).collect()))
 }
 
+/// bit `b` of the datagram counts from the most significant bit of byte 0 (`Flip`) or from the least
+/// significant bit of the last byte (`FlipTail`)
+fn mutate(dg: &mut Vec<u8>, m: &Mut) {
+    match m {
+        Mut::None => {}
+        Mut::Flip(b) => { if !dg.is_empty() { let i = (*b as usize) % (dg.len() * 8); dg[i / 8] ^= 0x80 >> (i % 8); } }
+        Mut::FlipTail(b) => { if !dg.is_empty() { let i = (*b as usize) % (dg.len() * 8); let n = dg.len(); dg[n - 1 - i / 8] ^= 1 << (i % 8); } }
+        Mut::Trunc(n) => { let n = (*n as usize).min(dg.len()); dg.truncate(n); }
+        Mut::Extend(n) => dg.extend(std::iter::repeat(0x5a).take(*n as usize)),
+        Mut::Field(i, v) => { if dg.len() > *i as usize { dg[*i as usize] = *v; } }
+    }
+}
+
 /// Build the datagram for an injection.  `peer` is needed for captured genuine records.
 async fn materialise(inj: &Inj, s: &Sess, peer: &mut Endpoint) -> Vec<u8> {
     let ver = (254u8, 253u8);
@@ -166,13 +187,12 @@ async fn materialise(inj: &Inj, s: &Sess, peer: &mut Endpoint) -> Vec<u8> {
             let _ = peer.dtls.send(Bytes::from(data)).await;
             let mut dgs = peer.pump().await;
             let mut dg = if dgs.is_empty() { vec![] } else { dgs.remove(0) };
-            match mutation {
-                Mut::None => {}
-                Mut::Flip(b) => { if !dg.is_empty() { let i = (*b as usize) % (dg.len() * 8); dg[i / 8] ^= 1 << (i % 8); } }
-                Mut::Trunc(n) => { let n = (*n as usize).min(dg.len()); dg.truncate(n); }
-                Mut::Extend(n) => dg.extend(std::iter::repeat(0x5a).take(*n as usize)),
-                Mut::Field(i, v) => { if dg.len() > *i as usize { dg[*i as usize] = *v; } }
-            }
+            mutate(&mut dg, mutation);
+            dg
+        }
+        Inj::Mutated(a, m) => {
+            let mut dg = Box::pin(materialise(a, s, peer)).await;
+            mutate(&mut dg, m);
             dg
         }
         Inj::Multi(a, b) => {
@@ -582,6 +602,25 @@ pub fn run(args: &Args) {
         let mut script: Vec<(Inj, bool)> = (0..n).map(|_| (gen_inj(&mut rng, 0), rng.chance(1, 3))).collect();
         if rng.chance(1, 3) { script.push((Inj::Close, false)); }
         emit_session(&mut run, &rt, role, &script);
+    }
+    // (2b) EVERY single-bit flip of the 13 header bytes, the first two and the last two body bytes of a
+    // genuine application record, of a record the peer could have sent (sealed under the right key) and
+    // of a close_notify alert, from the genuine and from a foreign source address — in every tier
+    {
+        let bases: Vec<Inj> = vec![Inj::Captured { len: 16, mutation: Mut::None }, Inj::Sealed { ct: 23, epoch: 1, var: 2, seq: 700 },
+            Inj::Sealed { ct: 21, epoch: 1, var: 0, seq: 701 }];
+        let mut muts: Vec<Mut> = (0..(13 + 2) * 8).map(Mut::Flip).collect();
+        muts.extend((0..16).map(Mut::FlipTail));
+        for base in &bases { for third in [false, true] { for role in [true, false] {
+            for chunk in muts.chunks(34) {
+                let mut script: Vec<(Inj, bool)> = chunk.iter().map(|m| (match base {
+                    Inj::Captured { len, .. } => Inj::Captured { len: *len, mutation: m.clone() },
+                    b => Inj::Mutated(Box::new(b.clone()), m.clone()) }, third)).collect();
+                script.push((base.clone(), false)); // the unmodified record is still accepted afterwards
+                emit_session(&mut run, &rt, role, &script);
+            }
+            run.count_n("exhaustive_header_and_edge_bit_flips", muts.len() as u64);
+        } } }
     }
     // (3) all single-bit flips of genuine records (thorough: every bit of 3 records; quick: 256 sampled)
     let flips: Vec<u32> = if args.tier_thorough { (0..3).flat_map(|_| 0..(13 + 8 + 16 + 16) * 8).collect() } else { (0..256).map(|_| rng.below((13 + 8 + 16 + 16) * 8) as u32).collect() };
